@@ -37,6 +37,10 @@ CATALOGUE = [
     R("addif", "w1", c="n", t="k"), R("addif", "w1", c="k", t="m"), R("rmif", "w1", c="n", t="m"), R("rmif", "w1", c="k", t="n"),
     R("awc", "w1", f="f1", t="k", x="w2"), R("awc", "w1", f="f3", t="k", x="w2"), R("awc", "w2", f="c1", t="k", x="w1"),
     R("ro", "w1", c="k"), R("del", "w1"), R("list"),
+    # a plain (unindexed) tag: on an overlay world such an edit is only a side-table entry, and must fail all the same
+    # when the feature does not exist
+    R("add", "w1", f="f1", t="p"), R("add", "w1", f="f3", t="p"), R("merge", "w1", f="f1", g="f3", t="p"),
+    R("add2", "w1", f="f3", g="f1", t="p"), R("rm", "w1", f="f3", t="p"),
 ]
 CHANGE_KINDS = {"add", "rm", "addif", "rmif", "add2", "merge", "addpt", "badpt", "awc"}
 
